@@ -293,6 +293,8 @@ func (c *checkSchema) collectAllowedJsonTypes(node schema.Node, ss map[string]sc
 		}
 		c.foundTypeNames[typeName] = struct{}{}
 		c.collectAllowedJsonTypes(getType(typeName, c.rootSchema, ss).RootNode(), ss) // can panic
+		// The type is left: meeting it once more on another branch isn't a recursion.
+		delete(c.foundTypeNames, typeName)
 	}
 }
 
